@@ -264,3 +264,26 @@ PROPS["C20"] = dict(
     assumptions=COMMON_ASSUME + ["cursors (home()) and elements()[k] are documented as unchecked and are not in the negative domain", "slicing / dropped / taked with out-of-range arguments are not in the must-assert set (the property speaks of indexing and assignment; 1-D sliced carries no bounds assertion)",
                  "empty views are skipped in the negative half"],
 )
+
+PROPS["C13"] = dict(
+    targets=[dict(name="C13double", src="vp/props/C13.cpp", defs=["VP_C13_T=0"], libs=["-lopenblas"], kinds=["rc"]),
+             dict(name="C13complex", src="vp/props/C13.cpp", defs=["VP_C13_T=1"], libs=["-lopenblas"], kinds=["rc"]),
+             dict(name="C13float", src="vp/props/C13.cpp", defs=["VP_C13_T=2"], libs=["-lopenblas"], kinds=["rc"]),
+             dict(name="C13cfloat", src="vp/props/C13.cpp", defs=["VP_C13_T=3"], libs=["-lopenblas"], kinds=["rc"])],
+    quick=dict(cases=2500, floor=20000),
+    thorough=dict(cases=20000, floor=150000),
+    level="exploration",
+    level_text=("Differential testing against naive loops on exact (small-integer) data: operation x form x element type x per-operand layout x scalars are generated; every matrix operand is "
+                "independently row- or column-major, optionally a padded sub-block of a larger parent filled with a sentinel, wrapped in N/T/J/H; vectors have stride 1..3, are rows or columns "
+                "of a parent, optionally conjugated. Each case runs in a forked child (OPENBLAS_NUM_THREADS=1) and must end in: result equals the mathematical definition, every parent cell "
+                "outside the output view unchanged, inputs unchanged; or a clean rejection (C++ exception or library assertion). A wrong result, a write outside the output, a sanitizer report or "
+                "a crash is a violation. Combinations the README lists as supported but that are rejected are counted, not failed."),
+    technique="differential testing against a naive reference on generated operand layouts, each case in a forked child with accepted/rejected/wrong classification (rapidcheck)",
+    rule=("case = operation {gemm in-place / lazy (=, +=, array construction), gemv in-place / lazy, dot (+dot, conversion, result argument), axpy (in-place, +=), scal, copy (in-place, lazy), swap, "
+          "nrm2, asum, iamax, herk (complex<double>), syrk, trsm (side x filling)} + sizes 0..5 + layouts + alpha, beta in {0, 1, -1, 2, i, 3-2i}; one harness per element type {double, "
+          "complex<double>, float, complex<float>}, workers split evenly; non-trivial = accepted, a matrix operand padded or wrapped or a vector strided/conjugated, sizes >= 2 where relevant; "
+          "distinct = hash of decoded case text"),
+    assumptions=COMMON_ASSUME[:1] + ["OpenBLAS 0.3.21 as BLAS implementation", "forms that do not instantiate on the pinned tree are replaced by the form that does and noted: lazy asum / iamax(range) -> asum(x, res) / iamax(first, last); y += axpy(a, x) needs a const x; syrk needs an owning array as output; herk with views only for complex<double>; in-place gemm and herk do not compile for complex<float> (core.hpp compares *beta with 0.0) and are excluded there; dot(C(x), C(y)) is a compile-time rejection",
+                 "empty operands are blocks of a non-empty parent (an array without elements has a null data pointer)", "excluded and counted (recorded known findings): level-3 operations with an extent equal to 1; gemv / dot with an empty inner dimension; herk of H(a) with contiguous rows",
+                 "nrm2 and trsm are compared with a tolerance of a few ulps scaled by the size; everything else exactly"],
+)
